@@ -8,7 +8,7 @@ CHECKS = {
  'C01': ('A', 'exploration', '5', 'seeded simulated histories on the real library; per-substance ledger over all operands before/after every successful transfer (real objects alone) + locality of wells not addressed', 'deterministic simulation: seeded operation histories with stale-version reuse, conservation ledger invariant after every event'),
  'C02': ('A', 'exploration', '5', 'every successful transfer of every run is compared, per well and per substance, with the exact-rational model step taken from the abstraction of the real pre-state (uniform fraction, size in the unit of q, paired destination gain, n*q for broadcasts)', 'deterministic simulation: seeded histories and long transfer chains checked step by step against an exact reference model'),
  'C03': ('A', 'exploration', '5', 'requests are aimed at both sides of every feasibility boundary the model computes from the current state (source content in each unit, free capacity of each destination well, current quantity, current concentration); decision table must-accept / must-refuse(ValueError) / do-not-care band; impossible-state invariant on every returned object', 'deterministic simulation: boundary-biased infeasible requests as the fault sequence, model-decided accept/refuse oracle'),
- 'C04': ('C04', 'fault_enumeration', '5', 'complete enumeration of fault instants (injected KeyboardInterrupt / MemoryError at every traced line event of pyplate/*.py, MemoryError from every deepcopy call) for a fixed corpus of 41 operations covering every op kind and pairing form incl. naturally failing part-way ones, plus seeded histories with faults at seeded instants; after every event and every fault the value fingerprint of every live object, argument and slice, and the module config, must be unchanged, and the fault-free retry must equal the dry run', 'deterministic simulation with fault injection: sys.settrace line-level exception injection and failing-deepcopy seam, enumerated over all instants for a corpus and sampled along seeded histories; structural fingerprints of all live objects as the invariant'),
+ 'C04': ('C04', 'fault_enumeration', '5', 'complete enumeration of fault instants (injected KeyboardInterrupt / MemoryError at every traced line event of pyplate/*.py, MemoryError from every deepcopy call) for a fixed corpus of 47 operations covering every op kind and pairing form incl. naturally failing part-way ones and operations that have nothing to do, plus seeded histories with faults at seeded instants; after every event and every fault the value fingerprint of every live object, argument and slice, and the module config, must be unchanged, and the fault-free retry must equal the dry run', 'deterministic simulation with fault injection: sys.settrace line-level exception injection and failing-deepcopy seam, enumerated over all instants for a corpus and sampled along seeded histories; structural fingerprints of all live objects as the invariant'),
  'C07': ('A', 'exploration', '5', 'differential oracle: every plate/slice operation is re-executed well by well through the container-level API of the real library on free-standing copies and compared; wells not addressed must be fingerprint-identical; pairing rules from an independent selector model', 'deterministic simulation: seeded histories over plate geometries with a per-well differential oracle'),
  'C08': ('B', 'exploration', '5', 'refinement check: every seeded recipe program is executed on the real Recipe and, step by step, through the direct container/plate API (eager reference); after bake the returned dictionary must have exactly the declared and created names and every value must equal the eager fold (contents, volume, capacity, name); before bake every declared object held by the recipe must still equal its declaration; if the eager fold succeeds bake must succeed', 'deterministic simulation: seeded interleavings of intent threads over shared objects, bake() checked as a refinement of eager execution'),
  'C09': ('B', 'exploration', '5', 'every get_substance_used answer (seeded substances x stages x destination subsets x units) is compared with an independent per-step ledger: model snapshots of the eager reference at every step boundary plus the amounts each remove step discarded; net decrease must raise ValueError; consecutive stages must add up', 'deterministic simulation: seeded recipe programs with stage partitions, ledger oracle over the recorded history'),
